@@ -47,7 +47,7 @@ def run(ctx):
                traces_validated_against_impl=len(lines), evaluations=len(lines), distinct_nontrivial=len(keys),
                rule="R1: spec/SctpImpl.tla, 2 streams x 2 messages (unit-sized bytes), every chunk size up to 4 and every interleaving, exhaustive; R2: real messages (20 / 28 / 52 bytes), chunk boundaries at landmarks (inside a header, header end, "
                     "inside a body, message end, spanning two messages) x all interleavings up to MaxChunks chunks over 2 and 3 streams (spec/SctpGen.tla), plus seeded random schedules (up to 8 streams, sizes across the 1 KiB buffer, chunks of 1..1500 bytes); "
-                    "each fed at once and stepwise to an in-memory association under diam.SCTPConn and consumed by the connection's own reader loop. non-trivial = chunks of different streams interleave; distinct by (mode, sizes, schedule) Since extended: wire streams 0, 15, 16, 1, 40, 9, 65535, 14; a third mode with answers deferred to the next delivery and written with retries whose first attempt fails.",
+                    "each fed at once and stepwise to an in-memory association under diam.SCTPConn and consumed by the connection's own reader loop. non-trivial = chunks of different streams interleave; distinct by (mode, sizes, schedule) Since extended: wire streams 0, 15, 16, 1, 40, 9, 65535, 14; a third mode with answers deferred to the next delivery and written with retries whose first attempt fails; a writer stream pinned by the handler; the first request of every stream answered through Conn.Write after ResetWriterStream.",
                samples=[dict(mode=l["mode"], sizes=l["sizes"], sched=l["sched"][:6], delivered=l["delivered"][:3]) for l in lines[3:len(lines):max(1, len(lines) // 3)]][:3],
                exhaustive=False, r1_states=r1["distinct"], rejected=len(bad), known_finding_hits={k: n for k, (n, _) in v.hits.items()})
     rc = v.finish()
